@@ -15,7 +15,10 @@ from ..models import authserver as A
 
 PROPERTY_ID = 'C06'
 LEVEL = 'exploration'
-RULE = ('scripted: sequences of authentication lines over a 12-letter abstract alphabet (AUTH without mechanism / unknown '
+RULE = ('cookie_overlap: three cookie exchanges of one user in every order, finished or cancelled, optionally with one of them '
+        'begun more than the cookie lifetime before the others (its keyring entry back-dated by 31 s): every non-aged exchange '
+        'answered with the right cookie is accepted. '
+        'scripted: sequences of authentication lines over a 12-letter abstract alphabet (AUTH without mechanism / unknown '
         'mechanism / offered mechanism with and without valid or invalid hex initial response, DATA empty / hex / non-hex, '
         'BEGIN, CANCEL, ERROR, unknown word), exhaustive to length 4 (quick) / 5 (thorough) x 3 cyclic scripts of '
         'mechanism outcomes (accept, challenge, reject), plus random sequences to length 40 over a wider alphabet '
@@ -664,7 +667,14 @@ def enum_cookie_overlap(tier):
         for ends in itertools.product(('finish', 'cancel'), repeat=3):
             if tier == 'quick' and ends.count('cancel') > 1:
                 continue
-            yield {'ops': [[k if k == 'start' else ends[c], c] for k, c in perm]}
+            ops = [[k if k == 'start' else ends[c], c] for k, c in perm]
+            yield {'ops': ops}
+            # the same history with one exchange having begun more than the cookie lifetime (30 s) before the others:
+            # its keyring entry has aged by the time the first exchange ends
+            first_end = min(i for i, o in enumerate(ops) if o[0] != 'start')
+            for old in range(3):
+                if pos[('start', old)] < first_end:
+                    yield {'ops': ops[:first_end] + [['age', old]] + ops[first_end:]}
 
 
 def run_cookie_overlap(case):
@@ -676,6 +686,7 @@ def run_cookie_overlap(case):
     try:
         user = __import__('pwd').getpwuid(os.getuid()).pw_name
         conns = {}
+        aged = set()
         for op, c in case['ops']:
             if op == 'start':
                 log = _newlog()
@@ -697,13 +708,29 @@ def run_cookie_overlap(case):
                 elif c == 2:
                     cchal = b'Nonce-' + cchal[:12].upper()
                 resp = cchal + b' ' + binascii.hexlify(hashlib.sha1(schal + b':' + cchal + b':' + cookie).digest())
-                conns[c] = (srv, log, cid, resp)
+                conns[c] = (srv, log, cid, resp, ctx)
+            elif op == 'age':
+                # 31 seconds have passed since connection c asked for its challenge (the others asked just now)
+                aged.add(c)
+                path = os.path.join(scratch, conns[c][4].decode())
+                if os.path.exists(path):
+                    lines = open(path, 'rb').read().split(b'\n')
+                    with open(path, 'wb') as f:
+                        for ln in lines:
+                            p3 = ln.split()
+                            if len(p3) == 3 and p3[0] == conns[c][2]:
+                                p3[1] = str(int(p3[1]) - 31).encode()
+                                ln = b' '.join(p3)
+                            if ln:
+                                f.write(ln + b'\n')
             elif op == 'cancel':
-                srv, log, cid, resp = conns[c]
+                srv, log, cid, resp = conns[c][:4]
                 _exchange(srv, b'CANCEL')
             else:
-                srv, log, cid, resp = conns[c]
+                srv, log, cid, resp = conns[c][:4]
                 r = _exchange(srv, b'DATA ' + binascii.hexlify(resp))
+                if c in aged:
+                    continue        # whether an exchange that outlived its own cookie still succeeds is not judged
                 if not r or r[0][0] != 'OK':
                     out.append(Disc('overlap.right-cookie-refused', 'history %r: connection %d (cookie id %r) answered %r; '
                                     'ids in play %r' % (case['ops'], c, cid, r, {k: v[2] for k, v in conns.items()})))
